@@ -601,6 +601,25 @@ where
         Ok(())
     }
 
+    /// A worker which dies while it is draining (after a pool shrink) and has no queued
+    /// jobs left is retired, like a draining worker that finished its last job, instead
+    /// of being replaced by an idle worker that nothing would ever retire.
+    ///
+    /// Returns [true] if the slot was retired
+    fn retire_dead_draining_worker(&mut self, wid: WorkerId, who: ActorId) -> bool {
+        let should_retire = matches!(
+            self.pool.get(&wid),
+            Some(worker) if worker.is_draining && worker.queued_job_count() == 0
+        );
+        if should_retire {
+            tracing::trace!("Retiring dead draining worker {wid}");
+            self.router.on_worker_availability_change(wid, false);
+            self.pool.remove(&wid);
+            self.worker_by_actor.remove(&who);
+        }
+        should_retire
+    }
+
     fn worker_pong(&mut self, wid: usize, time: Duration) {
         let discard_limit = self
             .discard_settings
@@ -1013,6 +1032,11 @@ where
             SupervisionEvent::ActorTerminated(who, _, reason) => {
                 let should_ping_replacement = state.dead_mans_switch.is_some();
                 let worker_id = state.worker_by_actor.get(&who.get_id()).copied();
+                if let Some(wid) = worker_id {
+                    if state.retire_dead_draining_worker(wid, who.get_id()) {
+                        return Ok(());
+                    }
+                }
                 let replacement =
                     if let Some(worker) = worker_id.and_then(|wid| state.pool.get_mut(&wid)) {
                         tracing::warn!(
@@ -1050,6 +1074,11 @@ where
             SupervisionEvent::ActorFailed(who, reason) => {
                 let should_ping_replacement = state.dead_mans_switch.is_some();
                 let worker_id = state.worker_by_actor.get(&who.get_id()).copied();
+                if let Some(wid) = worker_id {
+                    if state.retire_dead_draining_worker(wid, who.get_id()) {
+                        return Ok(());
+                    }
+                }
                 let replacement =
                     if let Some(worker) = worker_id.and_then(|wid| state.pool.get_mut(&wid)) {
                         tracing::warn!(
